@@ -107,3 +107,53 @@ def run_ranks(n, fn):
     if any(t.is_alive() for t in th):
         errs = [e or TimeoutError("rank did not finish") for e in errs]
     return res, errs, w
+
+
+# ---------------------------------------------------------------------------------------------- per-rank RNG stacks
+class _TLStack:
+    """nifty.cl.random keeps its seed-sequence / generator stacks in two module-level lists.  Real MPI ranks are separate processes and
+    each has its own copy; ranks simulated by threads get their own copy through this thread-local stand-in (a list per thread,
+    initialised from the state at installation time)."""
+
+    def __init__(self, init):
+        import copy
+        self._init = list(init)
+        self._tl = threading.local()
+        self._copy = copy
+
+    def _l(self):
+        if not hasattr(self._tl, "lst"):
+            self._tl.lst = [self._copy.deepcopy(x) for x in self._init]
+        return self._tl.lst
+
+    def __getitem__(self, i):
+        return self._l()[i]
+
+    def __len__(self):
+        return len(self._l())
+
+    def __iter__(self):
+        return iter(self._l())
+
+    def append(self, x):
+        self._l().append(x)
+
+    def pop(self, *a):
+        return self._l().pop(*a)
+
+    def __reduce__(self):
+        return (list, (list(self._l()),))
+
+
+class per_rank_rng:
+    """context manager: nifty.cl.random's stacks become per-thread for the duration of a simulated multi-rank run"""
+
+    def __enter__(self):
+        import nifty.cl.random as rnd
+        self.rnd, self.old = rnd, (rnd._sseq, rnd._rng)
+        rnd._sseq, rnd._rng = _TLStack(rnd._sseq), _TLStack(rnd._rng)
+        return self
+
+    def __exit__(self, *exc):
+        self.rnd._sseq, self.rnd._rng = self.old
+        return False
